@@ -22,6 +22,7 @@
     `prospective/main.nf` (EXTRACT_SCREEN_METADATA(ch_input...)): known finding `C19:prospective-marker-first`.
 -/
 import Batchie.Lemmas.OrchRun
+import Batchie.Lemmas.OrchGenerated
 
 namespace Batchie.Props.C19
 open Batchie.Orchestrator
@@ -76,11 +77,14 @@ def Resumed (cfg : Cfg) (t : Tree) (tr : List Event) : Prop :=
     -- belongs to a step that has completed
     (∀ e ∈ tr, ∀ i j, e ≠ Event.scriptRemoved i j) ∧ UserSafe tr ∧
     -- the directory is the uninterrupted run's directory + at most one marker-less piece of junk
-    t.iters = treeIters cfg p jk ∧ JunkOK jk
+    t.iters = treeIters cfg p jk ∧ JunkOK jk ∧
+    -- every launch, completed or interrupted, is for step number "steps completed before it": a completed step is never
+    -- launched again and no step is launched before its predecessor completed
+    LaunchOrd cfg.B tr
 
 theorem resumed_of_GI {cfg : Cfg} (hB : 1 ≤ cfg.B) {t : Tree} {tr : List Event} {p : Prog} {jk : Junk}
     (h : GI cfg t tr p jk) : Resumed cfg t tr :=
-  ⟨p, jk, h.crun, h.comp, by rw [h.comp]; exact h.crun.steps cfg hB, h.launched, h.noScript, h.userSafe, h.iters, h.junk⟩
+  ⟨p, jk, h.crun, h.comp, by rw [h.comp]; exact h.crun.steps cfg hB, h.launched, h.noScript, h.userSafe, h.iters, h.junk, h.lord⟩
 
 /-- **Retrospective mode, every batch size ≥ 1, ANY number of interruptions at ANY atomic action.**
     Starting from nothing, after any schedule of interrupted / uninterrupted calls of the step function:
@@ -103,6 +107,72 @@ theorem C19_resume_partial (cfg : Cfg) (hB : 1 ≤ cfg.B) (hml : MarkerLast cfg)
     Resumed cfg (runProcs cfg scheds Tree.empty []).1 (runProcs cfg scheds Tree.empty []).2 := by
   obtain ⟨p, jk, h⟩ := runProcs_inv cfg hml hB scheds (GI.init cfg)
   exact resumed_of_GI hB h
+
+/-- **no completed step is executed twice, not even partially; no step is started before its predecessor completed**
+    (retrospective mode, any interruption schedule): whenever the pipeline is launched -- whether that run completes or
+    is interrupted -- it is launched for step number `iter * B + plate` = the number of steps completed so far. -/
+theorem C19_launch_order (cfg : Cfg) (hmode : cfg.mode = .retrospective) (hB : 1 ≤ cfg.B) (hml : MarkerLast cfg)
+    (sched : List (Option Nat)) (a b : List Event) (l : Launch)
+    (h : (runSched cfg sched Tree.empty []).events = a ++ Event.launched l :: b) :
+    l.iter * cfg.B + l.plate = (completedOf a).length := by
+  have _ := hmode
+  obtain ⟨p, jk, hg⟩ := runSched_inv cfg hml hB sched (GI.init cfg)
+  exact hg.lord a b l h
+
+/-- the same for both modes and any number of process runs, under "marker last" -/
+theorem C19_launch_order_partial (cfg : Cfg) (hB : 1 ≤ cfg.B) (hml : MarkerLast cfg)
+    (scheds : List (List (Option Nat))) (a b : List Event) (l : Launch)
+    (h : (runProcs cfg scheds Tree.empty []).2 = a ++ Event.launched l :: b) :
+    l.iter * cfg.B + l.plate = (completedOf a).length := by
+  obtain ⟨p, jk, hg⟩ := runProcs_inv cfg hml hB scheds (GI.init cfg)
+  exact hg.lord a b l h
+
+/-! ## the next-step arithmetic is the translated Python
+
+`Batchie.Gen.OrchNext` is generated from `nextflow/scripts/batchie.py` on every run (translator module `Orch`): the
+statements of `examine_output_dir_to_determine_current_iteration` between `if last_successful_run_meta is None: return`
+and the final `return`. -/
+
+/-- for every batch size and every scan state with a completed step, the model's `nextOf` (the function `examine`
+    ends with, and the driver runs) computes what the translated statements compute -/
+theorem C19_next_step_arithmetic_generated (B : Nat) (st : ExSt) (m : Nat) (h : st.lastMeta = some m) :
+    ((nextOf B st).iter : Int) =
+        (Batchie.Gen.OrchNext.run ((st.curPlate.getD 0 : Nat) : Int) (B : Int) ((st.curIter.getD 0 : Nat) : Int)).next_iter_index ∧
+    ((nextOf B st).plate : Int) =
+        (Batchie.Gen.OrchNext.run ((st.curPlate.getD 0 : Nat) : Int) (B : Int) ((st.curIter.getD 0 : Nat) : Int)).next_plate_index ∧
+    (Batchie.Gen.OrchNext.run ((st.curPlate.getD 0 : Nat) : Int) (B : Int) ((st.curIter.getD 0 : Nat) : Int)).err = false ∧
+    (nextOf B st).lastMeta = some m :=
+  nextOf_generated B st m h
+
+/-- on every directory an execution can reach (with or without junk: an empty `iter_k` included), when `examine` does not
+    name a directory the step it returns is the translated arithmetic applied to the index of the LAST COMPLETED step
+    `l` -- never an extra plate `(k-1, B)` of a full iteration, never a completed step -/
+theorem C19_examine_next_is_generated (cfg : Cfg) (hB : 1 ≤ cfg.B) (hm : HasMarker cfg) (p : Prog) (hc : CRun cfg p)
+    (jk : Junk) (hj : JunkOK jk) (hnp : ∀ s, jk ≠ .plate s) (o : Bool) (l : Launch) (hl : p.flat.getLast? = some l) :
+    ∃ nx, examine cfg.B ⟨o, treeIters cfg p jk⟩ = .ok nx ∧
+      (nx.iter : Int) = (Batchie.Gen.OrchNext.run (l.plate : Int) (cfg.B : Int) (l.iter : Int)).next_iter_index ∧
+      (nx.plate : Int) = (Batchie.Gen.OrchNext.run (l.plate : Int) (cfg.B : Int) (l.iter : Int)).next_plate_index ∧
+      nx.iter * cfg.B + nx.plate = l.iter * cfg.B + l.plate + 1 := by
+  have hex := (C19_examine_correct cfg hB hm p hc jk hj o)
+  obtain ⟨h1, h2, h3⟩ := nextOfProg_generated cfg hB hc hl
+  refine ⟨nextOfProg cfg p, ?_, h1, h2, ?_⟩
+  · rw [hex.1]
+    cases jk with
+    | plate s => exact absurd rfl (hnp s)
+    | none => rfl
+    | emptyIter => rfl
+  · rw [hex.2.1]
+    have hs := hc.steps cfg hB
+    have hlen : p.flat ≠ [] := by intro e; rw [e] at hl; simp at hl
+    have : (p.flat.map (stepNo cfg.B)).getLast? = some (stepNo cfg.B l) := by
+      rw [List.getLast?_map, hl]; rfl
+    rw [hs] at this
+    have hpos : 0 < p.flat.length := List.length_pos_iff.mpr hlen
+    rw [List.getLast?_range] at this
+    simp only [stepNo] at this
+    split at this
+    · omega
+    · injection this with this; omega
 
 /-- each step of an uninterrupted retrospective run (hence, by `C19_resume`, of every interrupted one) is started
     from the output screen of its immediate predecessor (`advanced_screen.h5` when the predecessor published one) -/
